@@ -1,52 +1,77 @@
-(* C11 -- Percolation computes exactly the logical domain of influence.
-   Model: Brute.percolate_b (executable twin of AEON's percolate_subspace, compared with the
-   real percolate_space on every check run).  Only restatements closed by `exact`. *)
-From Coq Require Import List Bool Arith Relations.
-Import ListNotations.
-From BB Require Import BN Brute SpaceFacts TrapFacts PercolateFacts.
+(* C11 -- Percolation computes exactly the logical domain of influence
 
-(* the result is reached by fixing, one at a time, free variables whose update function is
-   constant on the space fixed so far, and nothing more can be fixed *)
-Theorem C11_is_percolation : forall N S, length S = nvars N -> is_percolation N S (percolate_b N S).
+   Model: Brute.percolate_b (twin of AEON's percolate_subspace, compared with percolate_space on every run),
+   Strict.percolate_strict_ord (percolate_space_strict with the candidate set's iteration order as a parameter),
+   conflicts_b, single_ldois, single_drivers.
+
+   This file contains only restatements closed by `exact` (statements produced by Coq's own
+   `Check` of the library lemma) plus non-vacuity Examples, each followed by Print Assumptions. *)
+From Coq Require Import List Bool Arith NArith Lia Relations Permutation.
+Import ListNotations.
+From BB Require Import BN Brute SpaceFacts TrapFacts PercolateFacts AttractorFacts Diagram Invariants Checks Filter
+  Strict PetriNet Control Meta FilterFacts PetriNetFacts TrappistFacts DiagramStruct DiagramSem1 DiagramCache
+  DiagramDepth DiagramComplete Termination ControlFacts MetaFacts Candidates StrictFacts MinExpandFacts CandidatesFacts.
+
+(* reached by fixing, one at a time, free variables whose update function is constant on the space fixed so far; nothing more can be fixed *)
+Theorem C11_is_percolation : forall (N : net) (S : list (option bool)), length S = nvars N -> is_percolation N S (percolate_b N S).
 Proof. exact percolate_b_is_percolation. Qed.
 
-(* ... and it does not depend on the order in which variables are fixed *)
-Theorem C11_unique : forall N S P P', length S = nvars N ->
-  is_percolation N S P -> is_percolation N S P' -> P = P'.
+(* independent of the order *)
+Theorem C11_unique : forall (N : net) (S : list (option bool)) (P P' : space), length S = nvars N -> is_percolation N S P -> is_percolation N S P' -> P = P'.
 Proof. exact percolation_unique. Qed.
 
-(* least fixed point: every refinement of S closed under value propagation refines the result *)
-Theorem C11_least : forall N S Q, length S = nvars N -> subspace Q S = true ->
-  (forall i v, i < nvars N -> nth i S None = None -> const_on N i Q v -> nth i Q None = Some v) ->
-  subspace Q (percolate_b N S) = true.
+(* least fixed point *)
+Theorem C11_least : forall (N : net) (S : list (option bool)) (Q : space), length S = nvars N -> subspace Q S = true -> (forall (i : nat) (v : bool), i < nvars N -> nth i S None = None -> const_on N i Q v -> nth i Q None = Some v) -> subspace Q (percolate_b N S) = true.
 Proof. exact percolate_b_least. Qed.
 
-(* given values are kept, even when they conflict with the dynamics *)
-Theorem C11_keeps_given : forall N S i v, length S = nvars N -> nth i S None = Some v ->
-  nth i (percolate_b N S) None = Some v.
+(* given values are kept even when they conflict with the dynamics *)
+Theorem C11_keeps_given : forall (N : net) (S : list (option bool)) (i : nat) (v : bool), length S = nvars N -> nth i S None = Some v -> nth i (percolate_b N S) None = Some v.
 Proof. exact percolate_b_keeps. Qed.
 
-Theorem C11_idempotent : forall N S, length S = nvars N ->
-  percolate_b N (percolate_b N S) = percolate_b N S.
+Theorem C11_idempotent : forall (N : net) (S : list (option bool)), length S = nvars N -> percolate_b N (percolate_b N S) = percolate_b N S.
 Proof. exact percolate_b_idem. Qed.
 
-Theorem C11_trap : forall N S, trap_space N S ->
-  trap_space N (percolate_b N S) /\ subspace (percolate_b N S) S = true.
+Theorem C11_trap : forall (N : net) (S : space), trap_space N S -> trap_space N (percolate_b N S) /\ subspace (percolate_b N S) S = true.
 Proof. exact percolate_b_trap. Qed.
 
-(* the boolean constancy test used by the twin is exact *)
-Theorem C11_const_on : forall N i S v, length S = nvars N ->
-  (const_on_b N i S = Some v <-> const_on N i S v).
+Theorem C11_const_on : forall (N : net) (i : nat) (S : list (option bool)) (v : bool), length S = nvars N -> const_on_b N i S = Some v <-> const_on N i S v.
 Proof. exact const_on_b_some. Qed.
 
-(* non-vacuity: a 3-variable network (x0' = x1, x1' = x0, x2' = x0 | x2) and a conflicting space *)
+(* what the strict variant reports *)
+Theorem C11_strict_shape : forall (N : net) (order : list nat) (S : list (option bool)) (v : nat) (c : bool), length S = nvars N -> NoDup order -> (forall v0 : nat, In v0 order <-> v0 < nvars N) -> nth v (percolate_strict_ord N order S) None = Some c -> v < nvars N /\ globally_const N v = false /\ (nth v S None = None \/ nth v S None = Some c) /\ const_on N v (merge S (percolate_strict_ord N order S)) c.
+Proof. exact strict_result_shape. Qed.
+
+Theorem C11_strict_closed : forall (N : net) (order : list nat) (S : list (option bool)), length S = nvars N -> NoDup order -> (forall v : nat, In v order <-> v < nvars N) -> strict_closed N S (merge S (percolate_strict_ord N order S)).
+Proof. exact strict_result_closed. Qed.
+
+Theorem C11_strict_least : forall (N : net) (order : list nat) (S : list (option bool)) (Q : space), length S = nvars N -> NoDup order -> (forall v : nat, In v order <-> v < nvars N) -> subspace Q S = true -> strict_closed N S Q -> subspace Q (merge S (percolate_strict_ord N order S)) = true.
+Proof. exact strict_result_least. Qed.
+
+(* the Python set iteration order does not matter *)
+Theorem C11_strict_order_independent : forall (N : net) (order1 order2 : list nat) (S : list (option bool)), length S = nvars N -> NoDup order1 -> NoDup order2 -> (forall v : nat, In v order1 <-> v < nvars N) -> (forall v : nat, In v order2 <-> v < nvars N) -> percolate_strict_ord N order1 S = percolate_strict_ord N order2 S.
+Proof. exact strict_order_independent. Qed.
+
+(* without globally constant variables both variants fix the same variables *)
+Theorem C11_strict_vs_percolate : forall (N : net) (S : list (option bool)), length S = nvars N -> (forall u : nat, u < nvars N -> globally_const N u = false) -> merge S (percolate_strict_b N S) = percolate_b N S.
+Proof. exact strict_eq_percolate. Qed.
+
+Theorem C11_single_ldois : forall (N : net) (v : nat) (b : bool) (X : space), In (v, b, X) (single_ldois N) <-> v < nvars N /\ globally_const N v = false /\ X = percolate_strict_b N (single_space (nvars N) v b).
+Proof. exact single_ldois_spec. Qed.
+
+Theorem C11_single_drivers : forall (N : net) (target : list (option bool)) (v : nat) (b : bool), length target = nvars N -> In (v, b) (single_drivers N target) <-> v < nvars N /\ globally_const N v = false /\ (forall (u : nat) (w : bool), nth u target None = Some w -> u = v /\ w = b \/ nth u (percolate_strict_b N (single_space (nvars N) v b)) None = Some w).
+Proof. exact single_drivers_spec. Qed.
+
+Theorem C11_single_drivers_python_reading : forall (N : net) (target : list (option bool)) (v : nat) (b : bool), length target = nvars N -> v < nvars N -> globally_const N v = false -> drives target (percolate_strict_b N (single_space (nvars N) v b)) v b = true <-> (forall (u : nat) (w : bool), nth u target None = Some w -> nth u (percolate_strict_b N (single_space (nvars N) v b)) None = Some w \/ (u, w) = (v, b)).
+Proof. exact single_drivers_items_reading. Qed.
+
+Theorem C11_conflicts : forall (N : net) (S : list (option bool)) (v : nat), length S = nvars N -> In v (conflicts_b N S) <-> v < nvars N /\ (exists g c : bool, nth v (percolate_b N S) None = Some g /\ const_on N v (percolate_b N S) c /\ g <> c).
+Proof. exact conflicts_b_spec. Qed.
+
 Definition ex_net : net :=
   [fun s => nth 1 s false; fun s => nth 0 s false; fun s => nth 0 s false || nth 2 s false].
-Example C11_example_propagates :
-  percolate_b ex_net [Some true; None; None] = [Some true; Some true; Some true].
+Example C11_example_propagates : percolate_b ex_net [Some true; None; None] = [Some true; Some true; Some true].
 Proof. vm_compute. reflexivity. Qed.
-Example C11_example_conflict_kept :
-  percolate_b ex_net [Some true; Some false; None] = [Some true; Some false; Some true].
+Example C11_example_conflict_kept : percolate_b ex_net [Some true; Some false; None] = [Some true; Some false; Some true].
 Proof. vm_compute. reflexivity. Qed.
 
 Print Assumptions C11_is_percolation.
@@ -56,3 +81,12 @@ Print Assumptions C11_keeps_given.
 Print Assumptions C11_idempotent.
 Print Assumptions C11_trap.
 Print Assumptions C11_const_on.
+Print Assumptions C11_strict_shape.
+Print Assumptions C11_strict_closed.
+Print Assumptions C11_strict_least.
+Print Assumptions C11_strict_order_independent.
+Print Assumptions C11_strict_vs_percolate.
+Print Assumptions C11_single_ldois.
+Print Assumptions C11_single_drivers.
+Print Assumptions C11_single_drivers_python_reading.
+Print Assumptions C11_conflicts.
